@@ -105,3 +105,12 @@ Theorem configuration_reaches_the_readers :
   plumbing_envelope_reader_complete = true /\ plumbing_connect_unary_unmarshaler_complete = true.
 Proof. exact Plumbing.readers_receive_configuration. Qed.
 Print Assumptions configuration_reaches_the_readers.
+
+(* "...by declaring a false length": besides the envelope prefix (limit_declared), a
+   peer can declare a length in the HTTP Content-Length header. The library never
+   consults it — no selector .ContentLength and no "Content-Length" literal in
+   its sources, extracted by the translator on every run — so no buffer is sized
+   from it: the readers above (which take no such argument) are the whole story. *)
+Theorem declared_content_length_is_never_consulted : content_length_never_consulted = true.
+Proof. reflexivity. Qed.
+Print Assumptions declared_content_length_is_never_consulted.
